@@ -740,7 +740,11 @@ func (e *Eng) applyContract(con *Contract, fi *FuncInfo, name string, recv *Val,
 	case con.Extern:
 		for _, w := range con.Writes {
 			if v, ok := env[w]; ok {
-				e.havocPointee(c.st, v)
+				if con.SkipTag != "" {
+					e.havocFieldsExceptTag(c.st, v, con.SkipTag)
+				} else {
+					e.havocPointee(c.st, v)
+				}
 			}
 		}
 	case !con.HasAssign:
